@@ -1,34 +1,37 @@
 (* C15/Model.v — executable model of target names: TargetList (src/Script/TargetList.cpp),
    TargetComponent::SetTargetName / ~TargetComponent (src/Script/Components/
-   TargetComponent.cpp), OP_UN_TARGETNAME and ScriptVM::ExecCmdMethodCommon
-   (src/Script/ScriptVMOperation.cpp), OP_STORE_FIELD on a `$name` value, and the container
-   values of src/Script/ScriptVariable.cpp (size, 1-based [i], listenerValue).
+   TargetComponent.cpp), OP_UN_TARGETNAME, ScriptVM::ExecCmdMethodCommon, OP_LOAD_FIELD_VAR /
+   ScriptVM::loadTopGroup (src/Script/ScriptVMOperation.cpp) and the array values of
+   src/Script/ScriptVariable.cpp (size, 1-based [i], listenerValue).
 
-   Code level.  The table m_targetList is an association list name -> entry; an entry has the
-   list of object ids in the code's own order and an identity [eid] (= the address of the
-   entry inside the set: entries are separately allocated nodes, a rehash does not move
-   them).  AddListener appends (creating the entry when missing), RemoveListener removes the
-   first occurrence and drops the entry when its list became empty; both return at once for
-   the const_str 0.  set<> enumeration order is never used (look-up by key only).
-   SetTargetName = RemoveListener(old key); store; AddListener(new key); the destructor =
-   RemoveListener(old key).  The key of a targetName member that was never set is NOT 0:
-   the non-const StringResolvable::GetConstString() turns an empty string into
-   ConstStrings::Empty, the same key as the explicit name "" - so the `if (!targetName)`
-   guards of TargetList are dead code, an object explicitly named "" IS listed under ""
-   and a never-named object is not listed (its removal looks into the "" list and finds
+   Code level.  The table m_targetList is an association list name -> list of object ids in
+   the code's own order.  AddListener appends (creating the entry when missing),
+   RemoveListener removes the first occurrence and drops the entry when its list became
+   empty; both return at once for the const_str 0.  set<> enumeration order is never used
+   (look-up by key only).  SetTargetName = RemoveListener(old key); store; AddListener(new
+   key); the destructor = RemoveListener(old key).  The key of a targetName member that was
+   never set is NOT 0: the non-const StringResolvable::GetConstString() turns an empty string
+   into ConstStrings::Empty, the same key as the explicit name "" - so the `if (!targetName)`
+   guards of TargetList are dead code, an object explicitly named "" IS listed under "" and
+   a never-named object is not listed (its removal looks into the "" list and finds
    nothing).  Names: 0 = never named, 1..4 = "a".."d", 5 = "".
    `$n`: no entry or empty -> NULL and (the Debug stream is attached) a NoTarget script
    warning, after which the statement goes on with NULL; one member -> that object; more ->
-   a container value that POINTS AT the entry's list.  A command applied to a container
-   value of size > 1 copies it into a const array (snapshot) and sends the command to every
-   element whose SafePtr is still non-null at its turn; a container value of size <= 1 and
-   every field assignment to a container value end in listenerValue() -> CastError.
-   Values stored in a variable (`level.c<j> = $n`): NULL / a SafePtr to one object / the
-   raw pointer [VGrp eid].  A stored pointer is well-defined exactly as long as that entry
-   exists (it then aliases the LIVE list); once the entry was dropped any use is undefined
-   behaviour: the model reports [oundef] and stops ([stuck]).
-   Handlers are data: targetname n, remove, mark (logs the receiver), kill j (logs the
-   receiver and destroys object j if alive).
+   setContainerValue + CastConstArrayValue: a constant array of weak references to the
+   members in the list's order, taken at that moment.  Stored in a variable
+   (`level.c<j> = $n`) the value stays what it is: NULL / a weak reference / the array
+   (a destroyed member reads NULL, the size does not change).
+   A command applied to an array of size > 1 walks a copy of it from 1 to size and sends the
+   command to every element that is non-null at its turn; a field assignment does the same
+   through loadTopGroup (plain SetVariable or the field's setter event) and ends at the
+   first member whose setter raises a script error (later members are not assigned).  An
+   array of size <= 1 would end in listenerValue() -> CastError (arrays made by `$n` always
+   have at least two elements).
+   Handlers are data.  Commands: targetname n, remove, mark (logs the receiver), kill j (logs
+   the receiver and destroys object j if alive).  Fields: tag (plain variable; the receiver
+   is logged), targetname n (the built-in setter), fuse j (a setter that logs the receiver
+   and raises an error when the receiver is j), zap j (a setter that logs the receiver and
+   destroys object j if alive).
    Abstracted: Container<SafePtr<Listener>> is a Coq list; objects are their spawn numbers
    1,2,..; the VM, the parser and the event system are not modelled. *)
 From Coq Require Import NArith List Bool.
@@ -36,6 +39,7 @@ Import ListNotations.
 Local Open Scope N_scope.
 
 Inductive cmd := CName (n : N) | CRemove | CMark | CKill (j : N).
+Inductive fld := FTag | FName (n : N) | FFuse (j : N) | FZap (j : N).
 Inductive target := TName (n : N) | TCap (j : N).       (* `$n`  |  `level.c<j>` *)
 
 Inductive op :=
@@ -46,7 +50,7 @@ Inductive op :=
 | OSize (t : target)               (* t.size *)
 | OIndex (t : target) (i : N)      (* t[i] *)
 | OCmd (t : target) (c : cmd)      (* t <command> *)
-| OField (t : target)              (* t.tag = <fresh value> *)
+| OField (t : target) (f : fld)    (* t.<field> = <value> *)
 | OCapture (j n : N).              (* level.c<j> = $n *)
 
 Definition EMPTY : N := 5.
@@ -54,19 +58,17 @@ Definition EMPTY : N := 5.
    empty string *)
 Definition norm (n : N) : N := if n =? 0 then EMPTY else n.
 
-Record entry := mkEntry { ename : N; eid : N; emem : list N }.
+Record entry := mkEntry { ename : N; emem : list N }.
 
-Inductive value := VNull | VObj (k : N) | VGrp (e : N).
+Inductive value := VNull | VObj (k : N) | VArr (l : list N).
 
 Record st := mkSt {
   tab : list entry;              (* m_targetList *)
   objs : list (N * N);           (* live objects (id, name member), spawn order *)
   nextid : N;
-  nexteid : N;
-  caps : list (N * value);       (* level.c<j> *)
-  stuck : bool }.
+  caps : list (N * value) }.     (* level.c<j> *)
 
-Definition init : st := mkSt [] [] 1 1 [] false.
+Definition init : st := mkSt [] [] 1 [].
 
 (* ---- association lists *)
 Fixpoint find_name (l : list (N * N)) (k : N) : option N :=
@@ -94,12 +96,6 @@ Fixpoint find_entry (t : list entry) (n : N) : option entry :=
   | e :: t' => if ename e =? n then Some e else find_entry t' n
   end.
 
-Fixpoint find_eid (t : list entry) (i : N) : option entry :=
-  match t with
-  | [] => None
-  | e :: t' => if eid e =? i then Some e else find_eid t' i
-  end.
-
 Definition mem_of (t : list entry) (n : N) : list N :=
   match find_entry t n with Some e => emem e | None => [] end.
 
@@ -111,20 +107,19 @@ Fixpoint remove_first (k : N) (l : list N) : list N :=
   end.
 
 Definition upd_entry (t : list entry) (n : N) (f : list N -> list N) : list entry :=
-  map (fun e => if ename e =? n then mkEntry (ename e) (eid e) (f (emem e)) else e) t.
+  map (fun e => if ename e =? n then mkEntry (ename e) (f (emem e)) else e) t.
 
 Definition drop_entry (t : list entry) (n : N) : list entry :=
   filter (fun e => negb (ename e =? n)) t.
 
-Definition with_tab (s : st) (t : list entry) (ne : N) : st :=
-  mkSt t (objs s) (nextid s) ne (caps s) (stuck s).
+Definition with_tab (s : st) (t : list entry) : st := mkSt t (objs s) (nextid s) (caps s).
 
 (* TargetList::AddListener *)
 Definition add_listener (s : st) (k n : N) : st :=
   if n =? 0 then s
   else match find_entry (tab s) n with
-       | Some _ => with_tab s (upd_entry (tab s) n (fun l => l ++ [k])) (nexteid s)
-       | None => with_tab s (tab s ++ [mkEntry n (nexteid s) [k]]) (nexteid s + 1)
+       | Some _ => with_tab s (upd_entry (tab s) n (fun l => l ++ [k]))
+       | None => with_tab s (tab s ++ [mkEntry n [k]])
        end.
 
 (* TargetList::RemoveListener *)
@@ -133,14 +128,13 @@ Definition remove_listener (s : st) (k n : N) : st :=
   else match find_entry (tab s) n with
        | Some e =>
            match remove_first k (emem e) with
-           | [] => with_tab s (drop_entry (tab s) n) (nexteid s)
-           | _ => with_tab s (upd_entry (tab s) n (remove_first k)) (nexteid s)
+           | [] => with_tab s (drop_entry (tab s) n)
+           | _ => with_tab s (upd_entry (tab s) n (remove_first k))
            end
        | None => s
        end.
 
-Definition with_objs (s : st) (l : list (N * N)) : st :=
-  mkSt (tab s) l (nextid s) (nexteid s) (caps s) (stuck s).
+Definition with_objs (s : st) (l : list (N * N)) : st := mkSt (tab s) l (nextid s) (caps s).
 
 Definition rename_in (k n : N) (l : list (N * N)) : list (N * N) :=
   map (fun p => if fst p =? k then (k, n) else p) l.
@@ -155,7 +149,7 @@ Definition set_name (s : st) (k n : N) : st :=
       add_listener s2 k (norm n)
   end.
 
-(* delete: ~TargetComponent, then every SafePtr to the object becomes null *)
+(* delete: ~TargetComponent, then every weak reference to the object becomes null *)
 Definition destroy (s : st) (k : N) : st :=
   match find_name (objs s) k with
   | None => s
@@ -166,11 +160,11 @@ Definition destroy (s : st) (k : N) : st :=
 
 Definition spawn (s : st) (n : N) : st :=
   let k := nextid s in
-  let s1 := mkSt (tab s) (objs s ++ [(k, 0)]) (k + 1) (nexteid s) (caps s) (stuck s) in
+  let s1 := mkSt (tab s) (objs s ++ [(k, 0)]) (k + 1) (caps s) in
   if n =? 0 then s1 else set_name s1 k n.
 
 (* ---- observations *)
-Inductive warn := WNoTarget | WNull | WCast | WRange.
+Inductive warn := WNoTarget | WNull | WCast | WRange | WFail.
 Inductive oval :=
 | ONone                (* nothing is reported *)
 | ODead                (* the op names a dead object: not executed *)
@@ -183,55 +177,39 @@ Inductive oval :=
 Record obs := mkObs {
   oval_ : oval;
   owarn : list warn;
-  olog : list N;            (* receivers of mark / kill / the field assignment, in order *)
-  oflag : N;                (* 1: field assignment to a `$n` group; 2: use of a stored group *)
-  odump : list (list N);    (* the lists of the names 1..5, then the never-named objects *)
-  oundef : bool }.
+  olog : list N;            (* receivers of mark / kill / tag / fuse / zap, in order *)
+  odump : list (list N) }.  (* the lists of the names 1..5, then the never-named objects *)
 
 Definition dump_of (t : list entry) (o : list (N * N)) : list (list N) :=
   [mem_of t 1; mem_of t 2; mem_of t 3; mem_of t 4; mem_of t 5; unnamed o].
 
 Definition dump (s : st) : list (list N) := dump_of (tab s) (objs s).
 
-(* a value after the VM looked at it *)
-Inductive rval := RNull | RObj (k : N) | RGrp (l : list N) | RDangling.
+(* a value after the VM looked at it: null elements of an array are 0 *)
+Inductive rval := RNull | RObj (k : N) | RGrp (l : list N).
 
-(* OP_UN_TARGETNAME, as a variable value *)
-Definition eval_name (s : st) (n : N) : value * list warn :=
-  match find_entry (tab s) n with
-  | None => (VNull, [WNoTarget])
-  | Some e =>
-      match emem e with
-      | [] => (VNull, [WNoTarget])
-      | [k] => (VObj k, [])
-      | _ => (VGrp (eid e), [])
-      end
-  end.
-
-Definition rval_of_list (l : list N) : rval * list warn :=
+(* OP_UN_TARGETNAME *)
+Definition value_of_list (l : list N) : value * list warn :=
   match l with
-  | [] => (RNull, [WNoTarget])
-  | [k] => (RObj k, [])
-  | _ => (RGrp l, [])
+  | [] => (VNull, [WNoTarget])
+  | [k] => (VObj k, [])
+  | _ => (VArr l, [])
   end.
 
-(* (value as seen now, warnings, a stored group?) *)
-Definition resolve (s : st) (t : target) : rval * list warn * bool :=
+Definition eval_name (s : st) (n : N) : value * list warn := value_of_list (mem_of (tab s) n).
+
+Definition look (o : list (N * N)) (v : value) : rval :=
+  match v with
+  | VNull => RNull
+  | VObj k => if alive_in o k then RObj k else RNull
+  | VArr l => RGrp (map (fun k => if alive_in o k then k else 0) l)
+  end.
+
+Definition resolve (s : st) (t : target) : rval * list warn :=
   match t with
-  | TName n => let '(r, w) := rval_of_list (mem_of (tab s) n) in (r, w, false)
-  | TCap j =>
-      match getc VNull (caps s) j with
-      | VNull => (RNull, [], false)
-      | VObj k => (if alive_in (objs s) k then RObj k else RNull, [], false)
-      | VGrp e =>
-          match find_eid (tab s) e with
-          | Some en => (RGrp (emem en), [], true)
-          | None => (RDangling, [], true)
-          end
-      end
+  | TName n => let '(v, w) := eval_name s n in (look (objs s) v, w)
+  | TCap j => (look (objs s) (getc VNull (caps s) j), [])
   end.
-
-Definition flag_of (stored : bool) : N := if stored then 2 else 0.
 
 (* ---- command fan-out *)
 Definition apply (s : st) (k : N) (c : cmd) (log : list N) : st * list N :=
@@ -242,7 +220,7 @@ Definition apply (s : st) (k : N) (c : cmd) (log : list N) : st * list N :=
   | CKill j => (destroy s j, log ++ [k])
   end.
 
-(* the loop of ExecCmdMethodCommon over the snapshot array *)
+(* the loop of ExecCmdMethodCommon over the copy of the array *)
 Fixpoint fanout (s : st) (snap : list N) (c : cmd) (log : list N) : st * list N :=
   match snap with
   | [] => (s, log)
@@ -252,22 +230,39 @@ Fixpoint fanout (s : st) (snap : list N) (c : cmd) (log : list N) : st * list N 
       else fanout s r c log
   end.
 
-Definition undef_obs (fl : N) : obs := mkObs ONone [] [] fl [] true.
+(* ---- field store: loadTop on one object; true = the setter raised a script error *)
+Definition fstore (s : st) (k : N) (f : fld) (log : list N) : st * list N * bool :=
+  match f with
+  | FTag => (s, log ++ [k], false)
+  | FName n => (set_name s k n, log, false)
+  | FFuse j => (s, log ++ [k], k =? j)
+  | FZap j => (destroy s j, log ++ [k], false)
+  end.
 
-Definition mk (s : st) (v : oval) (w : list warn) (lg : list N) (fl : N) : st * obs :=
-  (s, mkObs v w lg fl (dump s) false).
+(* the loop of loadTopGroup: ends at the first error *)
+Fixpoint ffanout (s : st) (snap : list N) (f : fld) (log : list N) : st * list N * bool :=
+  match snap with
+  | [] => (s, log, false)
+  | k :: r =>
+      if alive_in (objs s) k
+      then let '(s', log', e) := fstore s k f log in
+           if e then (s', log', true) else ffanout s' r f log'
+      else ffanout s r f log
+  end.
 
-Definition stick (s : st) : st :=
-  mkSt (tab s) (objs s) (nextid s) (nexteid s) (caps s) true.
+Definition mk (s : st) (v : oval) (w : list warn) (lg : list N) : st * obs :=
+  (s, mkObs v w lg (dump s)).
+
+Definition fail_warn (e : bool) : list warn := if e then [WFail] else [].
 
 (* the reported value, .size, [i] *)
 Definition q_value (r : rval) : oval :=
-  match r with RNull => ONull | RObj k => OObj k | RGrp l => OGrp l | RDangling => ONone end.
+  match r with RNull => ONull | RObj k => OObj k | RGrp l => OGrp l end.
 
 Definition q_size (r : rval) : oval :=
-  match r with RNull => OInt 0 | RObj _ => OInt 1 | RGrp l => OInt (N.of_nat (length l)) | RDangling => ONone end.
+  match r with RNull => OInt 0 | RObj _ => OInt 1 | RGrp l => OInt (N.of_nat (length l)) end.
 
-(* evalArrayAt: a listener value accepts exactly the index 1; a container 1..size *)
+(* evalArrayAt: a listener value accepts exactly the index 1; an array 1..size *)
 Definition q_index (r : rval) (i : N) : oval * list warn :=
   match r with
   | RNull => if i =? 1 then (ONull, []) else (ONil, [WRange])
@@ -276,59 +271,45 @@ Definition q_index (r : rval) (i : N) : oval * list warn :=
       if (i =? 0) || (N.of_nat (length l) <? i) then (ONil, [WRange])
       else (match nth_error l (N.to_nat (i - 1)) with
             | Some 0 => ONull | Some k => OObj k | None => ONil end, [])
-  | RDangling => (ONone, [])
   end.
 
 Definition step (s : st) (o : op) : st * obs :=
-  if stuck s then (s, undef_obs 0)
-  else
   match o with
-  | OSpawn n => mk (spawn s n) ONone [] [] 0
+  | OSpawn n => mk (spawn s n) ONone [] []
   | ORename k n =>
-      if alive_in (objs s) k then mk (set_name s k n) ONone [] [] 0 else mk s ODead [] [] 0
+      if alive_in (objs s) k then mk (set_name s k n) ONone [] [] else mk s ODead [] []
   | ODestroy k =>
-      if alive_in (objs s) k then mk (destroy s k) ONone [] [] 0 else mk s ODead [] [] 0
-  | OQuery t =>
-      let '(r, w, sg) := resolve s t in
-      match r with
-      | RDangling => (stick s, undef_obs 2)
-      | _ => mk s (q_value r) w [] (flag_of sg)
-      end
-  | OSize t =>
-      let '(r, w, sg) := resolve s t in
-      match r with
-      | RDangling => (stick s, undef_obs 2)
-      | _ => mk s (q_size r) w [] (flag_of sg)
-      end
+      if alive_in (objs s) k then mk (destroy s k) ONone [] [] else mk s ODead [] []
+  | OQuery t => let '(r, w) := resolve s t in mk s (q_value r) w []
+  | OSize t => let '(r, w) := resolve s t in mk s (q_size r) w []
   | OIndex t i =>
-      let '(r, w, sg) := resolve s t in
-      match r with
-      | RDangling => (stick s, undef_obs 2)
-      | _ => let '(v, w2) := q_index r i in mk s v (w ++ w2) [] (flag_of sg)
-      end
+      let '(r, w) := resolve s t in
+      let '(v, w2) := q_index r i in mk s v (w ++ w2) []
   | OCmd t c =>
-      let '(r, w, sg) := resolve s t in
+      let '(r, w) := resolve s t in
       match r with
-      | RDangling => (stick s, undef_obs 2)
-      | RNull => mk s ONone (w ++ [WNull]) [] (flag_of sg)
-      | RObj k => let '(s', lg) := apply s k c [] in mk s' ONone w lg (flag_of sg)
+      | RNull => mk s ONone (w ++ [WNull]) []
+      | RObj k => let '(s', lg) := apply s k c [] in mk s' ONone w lg
       | RGrp l =>
           match l with
-          | _ :: _ :: _ => let '(s', lg) := fanout s l c [] in mk s' ONone w lg (flag_of sg)
-          | _ => mk s ONone (w ++ [WCast]) [] (flag_of sg)     (* arraysize <= 1: listenerValue() *)
+          | _ :: _ :: _ => let '(s', lg) := fanout s l c [] in mk s' ONone w lg
+          | _ => mk s ONone (w ++ [WCast]) []       (* arraysize <= 1: listenerValue() *)
           end
       end
-  | OField t =>
-      let '(r, w, sg) := resolve s t in
+  | OField t f =>
+      let '(r, w) := resolve s t in
       match r with
-      | RDangling => (stick s, undef_obs 2)
-      | RNull => mk s ONone (w ++ [WNull]) [] (flag_of sg)
-      | RObj k => mk s ONone w [k] (flag_of sg)
-      | RGrp _ => mk s ONone (w ++ [WCast]) [] (if sg then 2 else 1)
+      | RNull => mk s ONone (w ++ [WNull]) []
+      | RObj k => let '(s', lg, e) := fstore s k f [] in mk s' ONone (w ++ fail_warn e) lg
+      | RGrp l =>
+          match l with
+          | _ :: _ :: _ => let '(s', lg, e) := ffanout s l f [] in mk s' ONone (w ++ fail_warn e) lg
+          | _ => mk s ONone (w ++ [WCast]) []
+          end
       end
   | OCapture j n =>
       let '(v, w) := eval_name s n in
-      mk (mkSt (tab s) (objs s) (nextid s) (nexteid s) ((j, v) :: caps s) (stuck s)) ONone w [] 0
+      mk (mkSt (tab s) (objs s) (nextid s) ((j, v) :: caps s)) ONone w []
   end.
 
 Fixpoint run_from (s : st) (ops : list op) : list obs :=
